@@ -46,16 +46,6 @@ theorem C12_once (ctx : Ctx) (L L' fuel : Nat) (ps : List Param) (c : Nat) (st :
   obtain ⟨l, h1, _, h3⟩ := C02.C02_once ctx L L' fuel ps c st hv
   exact ⟨l, h1, fun d => ⟨(h3 d).1, (h3 d).2.1, (h3 d).2.2.1⟩⟩
 
-/-- registering keys one by one never touches other keys -/
-theorem foldl_aset_other (keys : List Key) (d : Nat) (m : List (Key × Nat)) (k : Key) (hk : k ∉ keys) :
-    aget (keys.foldl (fun m k => aset m k d) m) k = aget m k := by
-  induction keys generalizing m with
-  | nil => rfl
-  | cons x xs ih =>
-    simp only [List.foldl_cons]
-    rw [ih _ (fun h => hk (by simp [h]))]
-    exact aget_aset_other m x k d (fun h => hk (by simp [h]))
-
 theorem C12_one (ctx : Ctx) (fn : Fn) (st : St) (i s : Nat) (cb info : Bool) :
     (((apiDecorate ctx fn st i s cb info).2.v matches .ok) →
       ∀ k, aget (((apiDecorate ctx fn st i s cb info).1).scope s).decorators k ≠ aget (st.scope s).decorators k →
